@@ -40,7 +40,8 @@ def run(rep, tier):
     ok = False
     if inner:
         rets = [r for r in ast.walk(inner[0]) if isinstance(r, ast.Return)]
-        ok = len(rets) == 1 and T(mod, rets[0].value) == K("(f_R(x[0],x[1]),f_Z(x[0],x[1]))") and [a.arg for a in inner[0].args.args] == ["psi", "x"]
+        from ..model import inline_temporaries
+        ok = len(rets) == 1 and T(mod, inline_temporaries(inner[0], rets[0].value)) == K("(f_R(x[0],x[1]),f_Z(x[0],x[1]))") and [a.arg for a in inner[0].args.args] == ["psi", "x"]
     rep.ob("R1", "ODE right-hand side is (f_R(R,Z), f_Z(R,Z)) with psi as the independent variable", ok, f.site(inner[0]) if inner else f.site(), "", key="ode/rhs")
     calls = [n for n in walk_own(f.node) if isinstance(n, ast.Call) and T(mod, n.func) == "solve_ivp"]
     ok = False
@@ -53,7 +54,7 @@ def run(rep, tier):
     ok = any(isinstance(s, ast.Assign) and T(mod, s) == K("psirange=(psi0,psivals[-1])") for s in walk_own(f.node))
     rep.ob("R1", "psirange = (psi0, last target)", ok, f.site(), "", key="ode/range")
     rets = [r for r in walk_own(f.node) if isinstance(r, ast.Return)]
-    ok = any(T(mod, r.value) == K("[Point2D(*p) for p in solution.y.T]") for r in rets)
+    ok = any(T(mod, r.value) in (K("[Point2D(*p) for p in solution.y.T]"), K("[Point2D(a, b) for a, b in solution.y.T]")) for r in rets)
     rep.ob("R1", "the result is the list of solution points, one per target value", ok, f.site(), "", key="ode/result")
     # the f_R, f_Z passed in are the equilibrium's
     init = prog.func(MESH, "MeshRegion.__init__")
